@@ -2,6 +2,7 @@ package catalog
 
 import (
 	"encoding/json"
+	"sync"
 
 	"github.com/jsightapi/jsight-schema-core/bytes"
 	"github.com/jsightapi/jsight-schema-core/notations/regex"
@@ -11,6 +12,26 @@ import (
 
 type ExchangeRegexSchema struct {
 	*regex.RSchema
+	example *regexExample
+}
+
+// regexExample keeps the example of a regex schema: it is generated once, because
+// the generator is stateful and gives another value on every call.
+type regexExample struct {
+	once  sync.Once
+	value []byte
+	err   error
+}
+
+// Example returns the same generated example on every call.
+func (e ExchangeRegexSchema) Example() ([]byte, error) {
+	if e.example == nil {
+		return e.RSchema.Example()
+	}
+	e.example.once.Do(func() {
+		e.example.value, e.example.err = e.RSchema.Example()
+	})
+	return e.example.value, e.example.err
 }
 
 func (e ExchangeRegexSchema) MarshalJSON() ([]byte, error) {
@@ -45,9 +66,9 @@ func (e ExchangeRegexSchema) Notation() notation.SchemaNotation {
 
 func NewExchangeRegexSchema(regexStr bytes.Bytes) (*ExchangeRegexSchema, error) {
 	s := regex.New("", regexStr)
-	return &ExchangeRegexSchema{RSchema: s}, nil
+	return &ExchangeRegexSchema{RSchema: s, example: &regexExample{}}, nil
 }
 
 func newExchangeRegexSchema(s *regex.RSchema) *ExchangeRegexSchema {
-	return &ExchangeRegexSchema{RSchema: s}
+	return &ExchangeRegexSchema{RSchema: s, example: &regexExample{}}
 }
